@@ -35,6 +35,7 @@ Definition dec_op (l : list Z) : option op * list Z :=
   | 9 :: p :: rest => (Some (OPodTerminated p), rest)
   | 10 :: p :: a :: b :: c :: d :: e :: f :: g :: rest =>
       let '(vs, r) := take_list rest in (Some (OPreemptFilter p (mkRaw a b c d e f g) vs), r)
+  | 11 :: kind :: rest => (Some (ONodeKind kind), rest)
   | _ => (None, [])
   end.
 Fixpoint dec_ops (n : nat) (l : list Z) : list op :=
